@@ -230,3 +230,42 @@ def parse_file(f):
     h = Hdr(ht=ht, cht=cht, flags=flags, comp=comp, chunks=chunks, opts=opts, detached=f[:5] == b"\0ZHR1")
     h.ddigest = ddg
     return h, f[l["lead"] + l["hlen"]:]
+
+
+def ci_fields(f):
+    """(name, absolute offset, encoded length, value) of every compressed integer in the header region of a
+    well-formed file, in file order; None if the file is not well-formed"""
+    l = parse_lead(f)
+    if l is None or parse_file(f) is None:
+        return None
+    out = []
+
+    def take(name, o):
+        v, o2 = ci_decode(f, o)
+        out.append((name, o, o2 - o, v))
+        return v, o2
+    o = 5
+    ht, o = take("hash_type", o)
+    hlen, o = take("header_size", o)
+    o = l["lead"]
+    o += DSIZE[ht]
+    flags, o = take("flags", o)
+    comp, o = take("comp_type", o)
+    if flags & 2:
+        oc, o = take("opt_count", o)
+        for k in range(oc):
+            _, o = take("opt%d_id" % k, o)
+            osz, o = take("opt%d_size" % k, o)
+            o += osz
+    isz, o = take("index_size", o)
+    idx_end = o + isz
+    cht, o = take("chunk_hash_type", o)
+    cnt, o = take("chunk_count", o)
+    k = 0
+    while o < idx_end:
+        o += DSIZE[cht] * (2 if flags & 4 else 1)
+        _, o = take("clen%d" % k, o)
+        _, o = take("ulen%d" % k, o)
+        k += 1
+    _, o = take("sig_count", o)
+    return out
